@@ -26,8 +26,10 @@
                                  blk_cnt, recv_cnt, sequence_size untouched
      R6 placement                an accepted fragment is stored at (seq - first) * blk_size, and a fragment is
                                  refused as a duplicate only if a fragment with the same distance was accepted
-     R7 bitmap contract          when the first fragment was accepted with the caller's bitmap (no ENOBUFS), no
-                                 block that lies inside the buffer is refused with ERANGE
+     R7 bitmap contract          when the first fragment was accepted with the caller's bitmap (no ENOBUFS), none of
+                                 the buf_size / blk_size blocks that test counted, lying inside the buffer, is refused
+                                 with ERANGE (an empty last fragment exactly at the end of a buffer whose bitmap has
+                                 no spare bit may be)
 
    Named deviations of the shipped code (a variant v \subseteq AllFix says which are repaired):
      "wrap"     reass_hlp_seq_calc_diff: across the 2^64 wrap the distance is one too small (MAX - first, not
@@ -162,6 +164,7 @@ StepBad(S, f, r) ==
            \/ (r.isdup /\ (f.seq - T.first) \notin Ds(T))
         THEN {"R6-placement"} ELSE {})
   \cup (IF bm /\ T.promised /\ r.rc = ERANGE /\ (f.seq - T.first) >= 0
+           /\ (f.seq - T.first) < T.bufsz \div T.blk             \* one of the blocks the first-fragment test counted
            /\ (f.seq - T.first) * T.blk + f.size <= T.bufsz
         THEN {"R7-bitmap-contract"} ELSE {})
 =============================================================================
